@@ -85,12 +85,12 @@ CLAIMS['C31'] = dict(engine='rtc (E3)', category='exploration',
     text='Bounded: catalogue crystals, first shells, order <= 3, with and without excluded species: generated cluster sets are exactly the site sets within the cutoff, each once, grouped in complete disjoint orbits; '
          'TS and vacancy cluster sets are closed under symmetry (and reversal); equality/hash are invariant under translation and reordering.',
     note='Catalogue, cutoffs and order are the bound.')
-CLAIMS['C32'] = dict(engine='rtc (E3)', category='exploration',
-    technique='run-time contract shared by the four evaluators against a brute-force cluster sum, exhaustive over occupations of small supercells (thorough)',
+CLAIMS['C32'] = dict(engine='pyvc (E1: AST -> VCs -> z3) + rtc (E3)', category='exploration',
+    technique='contracts of the site addressing every evaluator uses, ClusterSupercell.index and ciR (encode / decode pair: position = cell x sites-per-cell + site on the right sublattice stride, in range, and ciR of it returns the site and cell), discharged by z3 from the extracted source with proved integer division lemmas; run-time contract shared by the four evaluators against a brute-force cluster sum, exhaustive over occupations of small supercells (thorough)',
     text='Bounded: on the sampler catalogue, for every (thorough) / sampled (quick) mobile occupation: cluster counter, index-matrix expansion, interaction-list evaluator and sampler energy equal the brute-force sum to 1e-10.',
     note='Sampler catalogue is the bound.')
-CLAIMS['C34'] = dict(engine='rtc (E3)', category='exploration',
-    technique='run-time postcondition of MonteCarloSampler.transitions (detailed balance, reverse transition reported), exhaustive over occupations of small supercells (thorough)',
+CLAIMS['C34'] = dict(engine='pyvc (E1: AST -> VCs -> z3) + rtc (E3)', category='exploration',
+    technique='contracts of the site addressing the barrier evaluators use (ClusterSupercell.index / ciR, encode / decode pair) discharged by z3 from the extracted source; run-time postcondition of MonteCarloSampler.transitions (detailed balance, reverse transition reported), exhaustive over occupations of small supercells (thorough)',
     text='Bounded: for every occupation and every reported transition the final configuration reports the reverse transition with opposite displacement and Q - Q_rev = E_final - E_initial (1e-9), with KRA values, TS clusters, spectators, and a vacancy.',
     note='Sampler catalogue is the bound.')
 
